@@ -524,11 +524,10 @@ func (fl *flattener) rewriteFile(f *ast.File, fname string, src []byte) ([]byte,
 			fl.st.Skipped = append(fl.st.Skipped, site+": "+why)
 			return
 		}
-		if form == "go" {
-			if why := fl.signatureProblem(fd, call); why != "" {
-				fl.st.Skipped = append(fl.st.Skipped, site+": "+why)
-				return
-			}
+		// the types of its signature are written out at the call site (result temporaries, literal parameters)
+		if why := fl.signatureProblem(fd, call); why != "" {
+			fl.st.Skipped = append(fl.st.Skipped, site+": "+why)
+			return
 		}
 		// free package-level identifiers of the callee must mean the same thing at the call site
 		if why := fl.captureProblem(fd, call); why != "" {
